@@ -118,6 +118,19 @@ func runControls(r *Report) {
 			}
 			return false
 		}},
+		{"read-shape-remaining", "RemainGood", "RemainBad", func(f *ssa.Function) bool {
+			for _, c := range Calls(f, false, "Read") {
+				if ClassifyRead(c).Shape == "full" {
+					return true
+				}
+			}
+			return false
+		}},
+		{"null-decode", "NullDecodeGood", "NullDecodeBad", func(f *ssa.Function) bool {
+			nds := nullDecodes(f)
+			return len(nds) == 1 && nds[0].bad == token.NoPos
+		}},
+		{"timeout-only", "OnlyTimeoutGood", "OnlyTimeoutBad", func(f *ssa.Function) bool { return timeoutOnly(f) }},
 		{"read-at-least", "AtLeastGood", "AtLeastBad", func(f *ssa.Function) bool {
 			return ClassifyRead(callTo(f, "io:ReadAtLeast")).Shape == "full"
 		}},
